@@ -1,19 +1,18 @@
 CONSTANTS
   MinKeys = 0
-  MaxKeys = 2
-  NI = 2
-  MaxRF = 2
+  MaxKeys = 0
+  NI = 4
+  MaxRF = 4
   Shape = "any"
   Grain = "atomic"
   Gate = FALSE
   EmptyFix = TRUE
   AllowCancel = TRUE
   EarlyExits = TRUE
-  MaxConc = 3
-  Spawn = "go"
+  MaxConc = 9
+  Spawn = "deferred"
   Record = FALSE
-SPECIFICATION Spec
+SPECIFICATION TSpec
 INVARIANTS TypeOK SingleSend ReturnsOnce SuccessMeansQuorum ErrorMeansNoQuorum ErrorIsReal ChannelErrorIsReal
-           EarlyError LastAnswerError DecidedIsDelivered SuccessDelivered NoHang CalledExactly CleanupOnceAfterAll
-PROPERTIES CleanupStable
-CHECK_DEADLOCK TRUE
+           EarlyError LastAnswerError DecidedIsDelivered SuccessDelivered NoHang CalledExactly CleanupOnceAfterAll Report
+CHECK_DEADLOCK FALSE
